@@ -1,6 +1,9 @@
 package nbhttp
 
 import (
+	"bufio"
+	"bytes"
+	"io"
 	"net/http"
 	"strconv"
 )
@@ -112,6 +115,28 @@ func verifC09Run(cfg verifC09Cfg, sizes []int, name string) {
 	} else {
 		verifAssertD(len(d.trailers) == 0, "no-undeclared-trailers", name)
 	}
+	// a second, fully independent client: the real net/http.ReadResponse
+	// (interpreted). It ignores Transfer-Encoding in HTTP/1.0 messages, so
+	// chunked HTTP/1.0 answers (explicitly requested by the handler) are skipped.
+	if cfg.http10 && d.chunked {
+		return
+	}
+	br := bufio.NewReader(bytes.NewReader(append([]byte(nil), w...)))
+	hr, err := http.ReadResponse(br, req)
+	verifAssertD(err == nil, "net/http-decodes-the-response", name)
+	if err != nil {
+		return
+	}
+	s := verifSnapshotRes(hr)
+	verifAssertD(s.code == 200, "net/http-status", name)
+	verifAssertD(len(s.body) == len(body) && verifEqBytes(s.body, body), "net/http-body-is-concatenation-of-writes", name)
+	verifAssertD(len(s.header["X-A"]) == 1 && s.header["X-A"][0] == "av", "net/http-handler-header-present", name)
+	if cfg.trailer {
+		verifAssertD(len(s.trailer["X-T"]) == 1 && s.trailer["X-T"][0] == "tv", "net/http-declared-trailer-delivered", name)
+	}
+	_, perr := br.Peek(1)
+	verifAssertD(perr == io.EOF, "net/http-nothing-after-the-response", name)
+	verifReach("decoded-by-net/http")
 }
 
 func verifC09Sizes(firstMax int) []int {
